@@ -61,3 +61,15 @@ def outcome_under(kind, thunk):
             return "accept"
         except Exception as e:      # noqa: BLE001 - the outcome is the observation
             return type(e).__name__
+
+
+def never_accepts(thunk_factory, what, why=""):
+    """For a call the reference rejects: under every kind of failing standard output the call may raise whatever it likes, but
+    it must not return normally (a diagnostic that cannot be printed must not switch a check off).  thunk_factory() -> a fresh
+    zero-argument callable (fresh copies of the arguments) per kind.  Returns the number of probes."""
+    from .runner import Violation
+    for kind in KINDS:
+        if outcome_under(kind, thunk_factory()) == "accept":
+            raise Violation("%s returns normally when standard output fails (%s) although the reference rejects it%s"
+                            % (what, kind, (" (" + why + ")") if why else ""), bucket="failing stdout turns reject into accept")
+    return len(KINDS)
